@@ -27,6 +27,7 @@ class PollerModel:
             raise EngineError('Message / ChannelId enums not found in the sources')
         B = z3.Bool; I = z3.Int
         self.clock_ok, self.tracking_some, self.phc_cfg, self.phc_ok, self.grace, self.send_ok = B('clock_ok'), B('tracking_some'), B('phc_configured'), B('phc_read_ok'), B('within_grace'), B('send_ok')
+        self.grace_before = B('within_grace_before_the_query')
         self.as_s, self.as_n = I('mono_s'), I('mono_n')
         self.t_refid, self.cfg_refid, self.phc_val = I('tracking_ref_id'), I('configured_ref_id'), I('phc_error_bound')
         self.recv_ok, self.recv_msg, self.recv_err = B('recv_ok'), I('recv_msg'), I('recv_err')
@@ -47,8 +48,11 @@ class PollerModel:
             return Enum(z3.If(self.tracking_some, z3.IntVal(1), z3.IntVal(0)), {'Some': Struct([self.tracking]), 'None': UNIT})
 
         def grace(ex, st, callee, args, fn):
-            ev(st, 'is_within_grace_period')
-            return self.grace
+            # the grace period can run out while the query to chronyd is pending: the answer before the query and the answer
+            # after it are independent; the documented outcome is the one for the moment chronyd's silence is known
+            asked_before = not any(e.kind == 'get_tracking' for e in st.trace)
+            ev(st, 'is_within_grace_period', ('before the query' if asked_before else 'after the query',))
+            return self.grace_before if asked_before else self.grace
 
         def phc(ex, st, callee, args, fn):
             ev(st, 'get_phc_error_bound_from_path', (args[0],))
@@ -96,6 +100,8 @@ def check_c13(tier, seed):
     dom = [pm.as_s >= 0, pm.as_s < 2 ** 40, pm.as_n >= 0, pm.as_n < NS, pm.t_refid >= 0, pm.t_refid < 2 ** 32, pm.cfg_refid >= 0, pm.cfg_refid < 2 ** 32,
            pm.phc_val >= -2 ** 63, pm.phc_val < 2 ** 63]
     pr.add(dom)
+    # without an answer the age of the last good answer only grows while the query is pending: inside afterwards => inside before
+    pr.add(z3.Implies(z3.Not(pm.tracking_some), z3.Implies(pm.grace, pm.grace_before)))
     if S.head is None:
         ck.inconclusive.append('the poller function has no loop')
         return ck.finish()
@@ -125,8 +131,9 @@ def check_c13(tier, seed):
         if not mval(m, pm.clock_ok) or not mval(m, pm.send_ok):
             return None
         some, grace, cfg, phc_ok = [bool(mval(m, x)) for x in (pm.tracking_some, pm.grace, pm.phc_cfg, pm.phc_ok)]
+        gb = bool(mval(m, pm.grace_before))
         cfg_id, t_id, phc_val = mval(m, pm.cfg_refid), mval(m, pm.t_refid), mval(m, pm.phc_val)
-        out = rp.ask('poller %d %d %d %d %d %s' % (some, grace, cfg, cfg_id, t_id, ('ok:%d' % phc_val) if phc_ok else 'missing'))
+        out = rp.ask('poller %d %s %d %d %d %s' % (some, '%d' % grace if gb == grace else ('10' if gb else '01'), cfg, cfg_id, t_id, ('ok:%d' % phc_val) if phc_ok else 'missing'))
         if not out.startswith('ok'):
             return None
         f = dict(x.split('=', 1) for x in out.split()[1:] if '=' in x)
@@ -134,8 +141,8 @@ def check_c13(tier, seed):
         got = f.get('msgs', '')
         if f.get('n') != '1' or not got.startswith(want):
             stats[1] += 1
-            ck.violation('poller-message', 'one iteration of the real poller loop with (chronyd answered=%s, within grace=%s, PHC configured=%s, configured ref id=%d, report ref id=%d, PHC read ok=%s) sent %s message(s): %s ; documented: %s'
-                         % (some, grace, cfg, cfg_id, t_id, phc_ok, f.get('n'), got, want), {'cmd': 'poller', 'native': out})
+            ck.violation('poller-message', 'one iteration of the real poller loop with (chronyd answered=%s, within grace=%s%s, PHC configured=%s, configured ref id=%d, report ref id=%d, PHC read ok=%s) sent %s message(s): %s ; documented: %s'
+                         % (some, grace, '' if gb == grace else ' once the query has returned (%s before it)' % gb, cfg, cfg_id, t_id, phc_ok, f.get('n'), got, want), {'cmd': 'poller', 'native': out})
             return 'message'
         return None
     for g, a in alts:
